@@ -6,6 +6,8 @@ use std::path::PathBuf;
 
 pub mod c01;
 pub mod c02;
+pub mod c03;
+pub mod c04;
 pub mod c08;
 pub mod c13;
 pub mod c16;
@@ -64,9 +66,23 @@ pub fn dispatch(
 
     route!("C01", c01);
     route!("C02", c02);
+    route!("C03", c03);
+    route!("C04", c04);
     route!("C08", c08);
     route!("C13", c13);
     route!("C16", c16);
+
+    if property == "DEBUG-SCAN" {
+        // developer aid: rio-mon DEBUG-SCAN '<body text>'
+        let body = args.extra.first().cloned().unwrap_or_default().into_bytes();
+        let spans = crate::bodyfx::scan_spans(&body);
+        for s in &spans {
+            println!("{:?} {}..{} open_ended={} '{}'", s.kind, s.start, s.end, s.open_ended, crate::util::show(&body[s.start..s.end.min(body.len())]));
+        }
+        println!("scanner: {:?}", crate::bodyfx::scanner_boundaries(&body, &spans));
+        println!("library: {:?}", crate::bodyfx::library_boundaries(&body));
+        return 0;
+    }
 
     eprintln!("unknown or not yet implemented property {property}");
     2
